@@ -41,6 +41,8 @@ type scriptedSensor struct {
 	polls  int
 	target int
 	hit    chan struct{}
+	// inner: the outage is a REAL command sensor whose command keeps failing (`sn.monitor ... cmd=`)
+	inner sensors.Sensor
 }
 
 func (s *scriptedSensor) GetId() string { return "scripted" }
@@ -57,6 +59,11 @@ func (s *scriptedSensor) GetValue() (float64, error) {
 	if s.polls <= s.good {
 		return s.value, nil
 	}
+	if s.inner != nil {
+		if v, err := s.inner.GetValue(); err != nil {
+			return v, err
+		}
+	}
 	return 0, errors.New("sensor outage")
 }
 func (s *scriptedSensor) GetMovingAvg() float64    { s.mu.Lock(); defer s.mu.Unlock(); return s.avg }
@@ -67,6 +74,28 @@ func (s *scriptedSensor) SetMovingAvg(avg float64) { s.mu.Lock(); defer s.mu.Unl
 func snMonitor(a kv) (res string) {
 	configuration.CurrentConfig.TempRollingWindowSize = a.int("win", 10)
 	s := &scriptedSensor{avg: a.f64("avg", 0), value: a.f64("val", 0), good: a.int("good", 3), target: a.int("polls", 60), hit: make(chan struct{})}
+	if beh := a.str("cmd", ""); beh != "" {
+		dir, err := os.MkdirTemp("", "verifmon")
+		if err != nil {
+			panic(err)
+		}
+		defer os.RemoveAll(dir)
+		script := dir + "/sensor.sh"
+		if beh != "missing" {
+			body := "#!/bin/sh\nexit 1\n"
+			if beh == "garbage" {
+				body = "#!/bin/sh\necho not-a-number\n"
+			}
+			if err := os.WriteFile(script, []byte(body), 0755); err != nil {
+				panic(err)
+			}
+		}
+		inner, err := sensors.NewSensor(configuration.SensorConfig{ID: "moncmd", Cmd: &configuration.CmdSensorConfig{Exec: script}})
+		if err != nil {
+			panic(err)
+		}
+		s.inner = inner
+	}
 	ctx, cancel := context.WithCancel(context.Background())
 	defer cancel()
 	done := make(chan string, 1)
@@ -142,6 +171,57 @@ func init() {
 				return "ok avg=<unregistered>"
 			}
 			return "ok avg=" + fmtF(sn.GetMovingAvg())
+		case "sn.initslow":
+			// start-up with a sensor whose FIRST read is slow (a helper that has to wake a disk) and fails or answers late,
+			// while later reads answer at once: the real initializeSensors, then `polls` real updateSensor polls straight
+			// away, then nothing until the first read is long over. Without a poll the smoothed value cannot change.
+			if sensorDirBase == "" {
+				d, err := os.MkdirTemp("", "verifsensor")
+				if err != nil {
+					panic(err)
+				}
+				sensorDirBase = d
+				cleanups = append(cleanups, func() { os.RemoveAll(d) })
+			}
+			sensorCounter++
+			dir := fmt.Sprintf("%s/j%d", sensorDirBase, sensorCounter)
+			_ = os.MkdirAll(dir, 0755)
+			defer os.RemoveAll(dir)
+			firstMs := a.int("first_ms", 900)
+			firstTail := "exit 1"
+			if a.str("first", "fail") == "late" {
+				firstTail = fmt.Sprintf("echo %d; exit 0", a.int("firstvalue", 0))
+			}
+			script := dir + "/sensor.sh"
+			body := fmt.Sprintf("#!/bin/sh\nif [ ! -e %s/first ]; then : > %s/first; sleep %d.%03d; %s; fi\necho %d\n",
+				dir, dir, firstMs/1000, firstMs%1000, firstTail, a.int("value", 50000))
+			if err := os.WriteFile(script, []byte(body), 0755); err != nil {
+				panic(err)
+			}
+			id := fmt.Sprintf("initslow%d", sensorCounter)
+			saved := configuration.CurrentConfig.Sensors
+			configuration.CurrentConfig.Sensors = []configuration.SensorConfig{{ID: id, Cmd: &configuration.CmdSensorConfig{Exec: script}}}
+			defer func() { configuration.CurrentConfig.Sensors = saved }()
+			savedReg := prometheus.DefaultRegisterer
+			prometheus.DefaultRegisterer = prometheus.NewRegistry()
+			defer func() { prometheus.DefaultRegisterer = savedReg }()
+			t0 := time.Now()
+			if err := internal.VerifInitializeSensors(nil); err != nil {
+				return "err"
+			}
+			sn, ok := sensors.GetSensor(id)
+			if !ok {
+				return "ok avg=<unregistered>"
+			}
+			avg0 := sn.GetMovingAvg()
+			for k := 0; k < a.int("polls", 5); k++ {
+				_ = internal.VerifUpdateSensor(sn)
+			}
+			avg1 := sn.GetMovingAvg()
+			if rest := time.Duration(firstMs+400)*time.Millisecond - time.Since(t0); rest > 0 {
+				time.Sleep(rest)
+			}
+			return "ok avg0=" + fmtF(avg0) + " avg1=" + fmtF(avg1) + " avg2=" + fmtF(sn.GetMovingAvg())
 		case "sn.new":
 			if sensorDirBase == "" {
 				d, err := os.MkdirTemp("", "verifsensor")
